@@ -1817,7 +1817,7 @@ def _case_weight(case):
 
 def run(ctx: Ctx):
     from vf.prove import prove
-    prove(ctx, ["specs.misc"], "C18")  # deductive part (specs/misc.py)
+    prove(ctx, ["specs.misc", "specs.jobshop"], "C18", lemma_groups=["js"])  # deductive part: _compute_makespan, _dispatch (valid and complete schedule for every rule and seed)
     from vf.pool import pmap
     use_repo()
     rng = random.Random(ctx.seed)
